@@ -121,9 +121,53 @@ class CGen:
     def program(self, depth):
         self.vars, self.pool = {}, []
         if self.rng.random() < 0.2:
-            parts = tuple(self.expr(depth - 1, SHAPES[int(self.rng.integers(len(SHAPES)))]) for _ in range(int(self.rng.integers(2, 4))))
+            def part(nest=True):
+                if nest and self.rng.random() < 0.3:
+                    return ("tuple", tuple(part(False) for _ in range(int(self.rng.integers(1, 3)))))
+                return self.expr(depth - 1, SHAPES[int(self.rng.integers(len(SHAPES)))])
+
+            parts = tuple(part() for _ in range(int(self.rng.integers(2, 4))))
             return ("tuple", parts)
         return self.expr(depth, SHAPES[int(self.rng.integers(len(SHAPES)))])
+
+
+class _NamedConst:
+    """prints as a name; the printed source is executed with that name bound to the real constant"""
+
+    def __init__(self, i):
+        self.i = i
+
+    def __str__(self):
+        return "_fv_const[%d]" % self.i
+
+    __repr__ = __str__
+
+    def __format__(self, spec):
+        return str(self)
+
+
+def named_ok(code_named, program, data, want, res):
+    """True iff the printed source computes the right value once its constants are bound by name, i.e. the only thing wrong with
+    as_code() output is how array constants are printed (the recorded finding)"""
+    if code_named is None:
+        return False
+    try:
+        env = {}
+        exec(code_named, {"_fv_const": list(program.constants)}, env)
+        with np.errstate(all="ignore"):
+            got = env["program3"](**data)
+    except Exception as e:
+        res.count("as_code-named:raised:%s" % type(e).__name__)
+        return False
+    ok = same(got, want)
+    res.count("as_code-named:%s" % ("ok" if ok else "bad"))
+    return ok
+
+
+def has_nan_deep(v):
+    if isinstance(v, tuple):
+        return any(has_nan_deep(x) for x in v)
+    return bool(np.isnan(np.asarray(v, dtype=float)).any())
 
 
 def plan(tier, seed):
@@ -228,12 +272,24 @@ def run_case(P, declared, res, riders, rng):
         except Exception as e:
             res.count("as_code-or-pickle:declined:%s" % type(e).__name__)
             code, pickled = None, None
+        # the same printer with every constant printed as a name bound to the real constant: separates the recorded defect (array
+        # constants are printed with str()) from any other defect of the printed source
+        code_named = None
+        if code is not None and array_consts:
+            try:
+                from funsor.ops.program import OpProgram
+
+                shadow = OpProgram([_NamedConst(i) for i in range(len(program.constants))], program.inputs, program.operations)
+                shadow.backend = program.backend
+                code_named = shadow.as_code(name="program3")
+            except Exception as e:
+                res.count("as_code-named:declined:%s" % type(e).__name__)
         for b in range(3):
             data = binding(rng, p_inputs)
             riders.before(list(data.values()))
             with np.errstate(all="ignore"):
                 want = ref_eval(P, {k: (int(v) if p_inputs[k][0] != "real" else v) for k, v in data.items()})
-            if any(np.isnan(np.asarray(w, dtype=float)).any() for w in (want if isinstance(want, tuple) else (want,))):
+            if has_nan_deep(want):
                 continue
             # substitution into the expression (the property's own comparator)
             try:
@@ -271,12 +327,12 @@ def run_case(P, declared, res, riders, rng):
                         got = env["program2"](**(data if b % 2 else dict(reversed(list(data.items())))))
                     if not same(got, want):
                         # an array constant printed with str() may still parse (e.g. "[-1.25 -1.5 ]" is the list [-2.75])
-                        key = "as_code:array-constant" if array_consts else "as_code"
+                        key = "as_code:array-constant" if named_ok(code_named, program, data, want, res) else "as_code"
                         res.violation("compiler:" + key, "[%s] exec(as_code()) gives %s, expected %s | %s" % (route, short(got), short(want), show(P)[:300]), case=case)
                     else:
                         res.count("as_code:ok")
                 except Exception as e:
-                    key = "as_code:array-constant" if array_consts else "as_code:raised"
+                    key = "as_code:array-constant" if named_ok(code_named, program, data, want, res) else "as_code:raised"
                     res.count("as_code:raised:%s" % type(e).__name__)
                     res.violation("compiler:" + key, "[%s] printed program cannot be executed: %s: %s | %s" % (route, type(e).__name__, str(e)[:100], show(P)[:300]), case=case)
         # missing / unexpected inputs are rejected
@@ -309,7 +365,7 @@ def run_case(P, declared, res, riders, rng):
                 want = ref_eval(P, {k: (int(v) if p_inputs[k][0] != "real" else v) for k, v in data.items()})
                 got = traced(**data)
                 direct = fn(**data)
-            if any(np.isnan(np.asarray(w, dtype=float)).any() for w in (want if isinstance(want, tuple) else (want,))):
+            if has_nan_deep(want):
                 continue
             if not same(got, direct) or not same(got, want):
                 res.violation("tracer:value", "traced program gives %s, the function gives %s, reference %s | %s" % (short(got), short(direct), short(want), show(P)[:300]), case=case)
